@@ -9,6 +9,51 @@ SPECIAL_RULES = ['/a/:x\n', '/', '/a/', '//', '/a//b', '/a/:', '/<p:path><q>', '
                  '/n/<x:int>', '/u/:a', '/u/:b', '/<x:re:None>', '/<a>-<b>', '/<a><b>', '/<a:int><b>']
 
 
+# built-in filters: `path` before literals made of regex metacharacters, continuing afterwards, with
+# decoy occurrences later in the path; int / float with signs, leading zeros, Unicode digits,
+# exponent-like text
+BUILTIN_RULES = ['/dl/<p:path>.tar/img/<n:int>.png', '/dl/<p:path>.tar/<rest:path>', '/dl/<p.path()>.', '/f/<p:path>+x',
+                 '/f/<p:path>(1)/e', '/g/<p:path>[a]', '/g/{p:path}[a]/<n:int>', '/h/<p:path>$', '/h/<p:path>^a',
+                 '/h/<p:path>|b', '/q/<p:path>?', '/q/<p:path>*z', '/q/<p:path>\\d', '/v/<x:int>', '/v/<x:int>/t',
+                 '/v/<x.int()>-<y:int>', '/w/<x:float>', '/w/<x:float>x', '/w/<x:float>e<y:int>', '/n<x:int><y>',
+                 '/m/<x:float>.<y:int>', '/p/<p:path>', '/p/<p:path>/end', '/r/<p:path>.<ext>', '/v/<x:re:-?\\d+>/t']
+BUILTIN_PATHS = ['/dl/site.tar/img/avatar/1.png', '/dl/site.tar/img/7.png', '/dl/a.tar/b.tar/img/12.png', '/dl/xtar/img/1.png',
+                 '/dl/a.tar/rest/x', '/dl/a.tar/', '/dl/a.b.', '/dl/.tar/img/1.png', '/f/a+x', '/f/a+x+x', '/f/aax', '/f/a(1)/e',
+                 '/f/a(1)(1)/e', '/f/a1/e', '/f/a+x(1)/e', '/g/x[a]', '/g/xa', '/g/x[a][a]', '/g/x[a]/12', '/g/x[a]/x[a]/3',
+                 '/h/a$', '/h/a', '/h/a^a', '/h/aa', '/h/a|b', '/h/ab', '/h/b', '/q/a?', '/q/a', '/q/a*z', '/q/aaz', '/q/az',
+                 '/q/a\\d', '/q/a5', '/v/12', '/v/-7', '/v/007', '/v/+1', '/v/٣', '/v/1٣', '/v/1e3', '/v/12/t', '/v/-12/t',
+                 '/v/1.5', '/v/-', '/v/--1', '/v/1-2', '/v/1--2', '/v/-1--2', '/w/1.5', '/w/-0.25', '/w/3', '/w/1.', '/w/.5',
+                 '/w/1e3', '/w/1.5e3', '/w/1.5x', '/w/١.٥', '/w/00.10', '/w/1.5.2', '/n12ab', '/n-1', '/n12', '/m/1.5.2',
+                 '/m/1.2', '/m/-3.0.00001', '/m/3.00001', '/p/a/b/c', '/p/x/end', '/p/end', '/p//end', '/p/a/end/end',
+                 '/r/a.b.c', '/r/.x', '/r/a.', '/r/a.b/c.d']
+
+
+def gen_builtin_history(rng):
+    ops = []
+    rules = rng.sample(BUILTIN_RULES, rng.randint(2, 6))
+    for r in rules:
+        ops.append(['A', r, ['GET'], None, False])
+        for _ in range(rng.randint(0, 2)):
+            ops.append(_builtin_lookup(rng, rules))
+    for _ in range(rng.randint(4, 10)):
+        ops.append(_builtin_lookup(rng, rules))
+    return ops
+
+
+def _builtin_lookup(rng, rules):
+    pre = rng.choice(rules)[:3]
+    cand = [p for p in BUILTIN_PATHS if p.startswith(pre)] or BUILTIN_PATHS
+    p = rng.choice(cand)
+    if rng.random() < .25:
+        p = '/' + G.mutate(rng, p[1:])
+    k = rng.random()
+    if k < .6:
+        return ['R', p, ['GET', 'ANY']]
+    if k < .8:
+        return ['W', 'GET', p]
+    return ['G', p.strip('/')]
+
+
 def play(run, ops):
     """replay a recorded op list on a Runner"""
     for op in ops:
@@ -26,6 +71,8 @@ def play(run, ops):
 
 def gen_history(rng, stats, names=True, max_adds=8):
     """op list (not yet played): adds interleaved with lookups"""
+    if rng.random() < .2:
+        return gen_builtin_history(rng)
     ops = []
     asts = []
     n_add = rng.randint(1, max_adds)
@@ -74,7 +121,7 @@ def gen_history(rng, stats, names=True, max_adds=8):
 class C01(Check):
     pid = 'C01'
     props_mod = 'OmbottModel.Props.C01'
-    tables = ['router']
+    tables = ['router', 'routerbuiltin']
     design_ref = '6/C01'
     anchors = ['ombott/router/radidict.py', 'ombott/router/radirouter.py', 'ombott/router/filter_factory.py',
                'ombott/router/parser.py', 'ombott/router/sym_stream.py', 'ombott/ombott.py']
@@ -84,20 +131,26 @@ class C01(Check):
                   'the rule (insert_wf, insert_denote); after every history of add/remove_method the tree holds exactly '
                   'the routes table and resolve = plain matcher over it (resolve_eq_rule_by_rule); kwargs are the names of '
                   'the rule text the handler was registered with, bound to its own filters\' values '
-                  '(params_are_rule_names, filter_guard); every syntax flavour parses to the same abstract rule '
-                  '(parse_print). Model tied to the code by differential runs of whole registration/lookup histories.')
+                  '(params_are_rule_names, filter_guard); for every filter environment, rex selectors included, a '
+                  'handler is only called when its own rule matches and only with filter answers (get_sound, '
+                  'handler_called_only_on_match); every syntax flavour parses to the same abstract rule (parse_print). Model tied to the code by differential runs of whole registration/lookup histories.')
     level_note_extra = ('regex filters are a parameter (real handler results shipped per lookup); filters answering '
-                        'with a rex selector are outside the rule-by-rule theorems (NoSel) and covered by correspondence only')
+                        'with a rex selector are outside the completeness/priority theorems (NoSel; soundness holds for '
+                        'every environment) and are covered there by correspondence only')
     rule = ('histories of 1-8 RadiRouter.add calls (rule ASTs printed in every syntax flavour, sharing/splitting prefixes, '
             'all filter kinds incl. rex selectors, malformed rules, several methods/names per pattern, names, overwrite) '
             'with lookups after almost every registration through RadiRouter.resolve, RadiDict.get(allow_partial) and '
             'Ombott.__call__ on paths derived from the accepted rules (per-regex samples) and mutated (empty segments, '
             'CR, LF, non-ASCII, extra text, extra slashes); non-trivial = some lookup hits a wildcard rule. Thorough '
             'search adds the exhaustive scope: every rule set of <= 3 rules of a 14-rule universe x every path of '
-            'length <= 5 over {a / 1 - CR}.')
-    assumptions = ['re matching of the filter masks is taken from the running interpreter (handler results and compile errors shipped to the model)',
+            'length <= 5 over {a / 1 - CR}. A fifth of the histories use the built-in filter pool: path wildcards before '
+            'literals made of regex metacharacters (.tar/ +x (1) [a] $ ^ | ? * \\d) continuing afterwards, with decoy '
+            'occurrences later in the path; int/float with signs, leading zeros, Unicode digits, exponent-like text; '
+            'plus driver probes of the live int/float/path handlers against the Lean reference semantics.')
+    assumptions = ['in the tree-walk model the filter handlers are a parameter (real handler results and compile errors shipped per lookup); the built-in filters int/float/path are pinned separately: reference semantics Model/RouterBuiltin.lean tied to the live handlers by the regenerated mask/probe tables (builtin_masks_pinned, builtin_probes_agree) and by driver probes on random texts, and the search oracle re-states them from their documentation (Unicode digits included) and compiles user regexes itself',
+                   're itself (matching of a compiled pattern) is trusted',
                    'rule text contains no CR (the router\'s own wildcard marker; rule_without_marker_ok) and no repeated wildcard name: outside, Python pairs filters and markers wrongly and the model does not follow',
-                   'filters answering with a rex selector (two-pass lookup) are covered by correspondence, not by the rule-by-rule theorems (hypothesis NoSel)',
+                   'for filters answering with a rex selector (two-pass lookup) only soundness is proved (get_sound, handler_called_only_on_match); which rule wins / 404-completeness there is covered by correspondence (hypothesis NoSel of the other theorems)',
                    'str.upper on method names is a parameter of the model (ASCII in the correspondence run)',
                    '\\w of re is taken from the interpreter (generated code point ranges)']
 
@@ -138,6 +191,36 @@ class C01(Check):
                     wild_hit = True
             self._bump('ops', len(run.ops))
             out.append((run.line(), run.answer(), dict(ops=ops, wild_hit=wild_hit)))
+        out += self.corr_builtin(rng, n)
+        return out
+
+    BUILTIN_ALPHA = list('0123456789--..e/+x(1)[a]$^|?*a') + ['.tar/', 'é']
+
+    def corr_builtin(self, rng, n):
+        """the live handlers of int / float / path against the reference semantics of
+        Model/RouterBuiltin.lean on random ASCII-digit texts"""
+        from ombott.router.filter_factory import FilterFactory
+        from harness.tables.routerbuiltin import PATH_CONFS, val_text
+        out = []
+        for _ in range(n):
+            name = rng.choice(['int', 'float', 'path', 'path'])
+            conf = None
+            if name == 'path':
+                conf = rng.choice(PATH_CONFS + ['+x(1)', 'a.', '//', '1'])
+            text = ''.join(rng.choice(self.BUILTIN_ALPHA) for _ in range(rng.randint(0, 9)))
+            if name != 'path' and rng.random() < .7:
+                text = rng.choice(['', '-', '', '00']) + str(rng.randrange(1000)) + rng.choice(['', '.', '.5', '.50']) + text
+            if name == 'path' and conf and rng.random() < .6:
+                text = text + conf + (text[:2] + conf if rng.random() < .4 else '')
+            try:
+                h = FilterFactory.make_filter(name, conf)[0]
+                v, k, sel = h(text)
+                ans = '~' if v is None else '%s:%d' % (core.hs(val_text(name, v, text, k)), k)
+            except Exception as e:          # a built-in filter that cannot be built / applied
+                v, ans = None, 'err:' + G.err_name(e)
+            self._bump('builtin-' + name + ('-hit' if v is not None else '-miss'))
+            out.append(('router builtin %s %s %s' % (core.hs(name), core.hs(conf or ''), core.hs(text)), ans,
+                        dict(kind='builtin', filter=name, conf=conf, text=text)))
         return out
 
     # ------------------------------------------------------------------
@@ -153,8 +236,11 @@ class C01(Check):
             if op[0] == 'A':
                 _, rule, methods, name, ow = op
                 ans = run.add(rule, methods, None, ow)      # names are not part of C01
+                if rule in BUILTIN_RULES and ans.startswith('err:') and \
+                        ans not in ('err:RadiDictKeyError', 'err:RouteMethodError'):
+                    bad.append(('valid-rule-rejected', f'registration of {rule!r} raised {ans[4:]}'))
                 if ans.startswith('ok:'):
-                    pat, params, filters, _, _ = Route.parse_rule(rule)
+                    pat, filters, params = G.rule_spec(rule)
                     if G.TOKEN in rule or len(set(params)) != len(params):
                         return bad                            # outside the property's rules
                     rules[pat] = filters
@@ -232,7 +318,7 @@ class C01(Check):
                         R.add(rule, 'GET', (lambda i: (lambda **kw: i))(i))
                     except Exception:
                         continue
-                    pat, params, filters, _, _ = Route.parse_rule(rule)
+                    pat, filters, params = G.rule_spec(rule)
                     rules[pat], names[pat] = filters, params
                 for path in paths:
                     evals += 1
